@@ -183,8 +183,9 @@ def gen_program(rng, family="core", nfn=None):
         }
         tr = Tree()
         build(rng, spec, rng.choice([2, 3, 3, 4]), tr, {"nh": 0, "ni": 0})
-        fns[j - 1] = {"kind": kind, "init": 0, "nodes": tr.nodes}
-        exports[j] = max_exports(tr.nodes)
+        fwd = 1 if family in ("struct", "churn", "intern", "mixed") and rng.random() < 0.35 else 0
+        fns[j - 1] = {"kind": kind, "init": 0, "fwd": fwd, "nodes": tr.nodes}
+        exports[j] = max_exports(tr.nodes) + (sum(exports.get(g, 0) for g in callees) if fwd else 0)
     sfns = []
     for m in (1, 2, 3):
         spec = {"nv": nv, "nin": nin, "ncell": 0, "callees": [], "ops": ["in", "fld", "fld"], "p_leaf": 0.3}
@@ -201,6 +202,125 @@ def gen_program(rng, family="core", nfn=None):
         "fns": fns, "sfns": sfns, "ifns": ifns,
         "lru_cap": rng.choice([1, 2, 2, 3]) if family in ("lru", "mixed") else 2,
     }
+
+
+def chain_body(rng, steps):
+    """Cycle-family body: a chain of steps ending in `retr`.
+
+    steps: list of ("orc", const) | ("orcall", g, mask) | ("cond", i, f, g, mask)  (call g only when input i.f = 1)
+    Branches rejoin: both kids of an `in` node lead to the same continuation.
+    """
+    nodes = []
+
+    def add(n):
+        nodes.append(n)
+        return len(nodes)
+
+    # build backwards so continuations are known
+    nxt = None
+    built = []
+    # first pass: allocate in forward order for readability
+    plan = []
+    for st in steps:
+        if st[0] == "cond":
+            plan.append(("in", st))
+            plan.append(("condcall", st))
+        else:
+            plan.append((st[0], st))
+    plan.append(("retr", None))
+    idx = {n: n + 1 for n in range(len(plan))}
+    for n, (kind, st) in enumerate(plan):
+        nx = idx.get(n + 1)
+        if kind == "orc":
+            nodes.append(node("orc", st[1], 0, 0, [nx]))
+        elif kind == "orcall":
+            nodes.append(node("orcall", st[1], st[2], 0, [nx]))
+        elif kind == "in":
+            # value 0 -> skip the call (continuation after the conditional call), 1 -> the call
+            nodes.append(node("in", st[1], st[2], 0, [idx[n + 2], idx[n + 1]]))
+        elif kind == "condcall":
+            nodes.append(node("orcall", st[3], st[4], 0, [nx]))
+        elif kind == "retr":
+            nodes.append(node("retr"))
+    return nodes
+
+
+def gen_cycle_program(rng, family):
+    """Programs for C12 (fix/fixjoin), C13 (fb), C14 (pcycle: plain functions that may form cycles), C15 (diverge)."""
+    nin = rng.choice([1, 2])
+    inputs = [[[rng.randrange(2), rng.choice([0, 0, 1, 2])], [rng.randrange(2), rng.choice([0, 0, 2])]] for _ in range(nin)]
+    nbits = 3
+    full = (1 << nbits) - 1
+    if family in ("fix", "fb"):
+        ncyc = rng.choice([1, 2, 3, 3, 4])
+        nleaf = rng.choice([0, 1])
+        ncons = rng.choice([0, 1, 1])
+        # order: consumers (plain), cycle members, leaves (plain)
+        nfn = ncons + ncyc + nleaf
+        cyc = list(range(ncons + 1, ncons + ncyc + 1))
+        leaves = list(range(ncons + ncyc + 1, nfn + 1))
+        fns = []
+        for j in range(1, nfn + 1):
+            if j in cyc:
+                kind = "fb" if family == "fb" else rng.choice(["fix", "fix", "fixjoin"])
+                steps = [("orc", rng.randrange(full + 1))] if rng.random() < 0.8 else []
+                for _ in range(rng.choice([1, 2, 2, 3])):
+                    g = rng.choice(cyc + cyc + leaves) if leaves else rng.choice(cyc)
+                    mask = rng.choice([full, full, full, 3, 5, 6])
+                    if rng.random() < 0.45:
+                        steps.append(("cond", rng.randrange(nin) + 1, rng.randrange(2) + 1, g, mask))
+                    else:
+                        steps.append(("orcall", g, mask))
+                    if rng.random() < 0.3:
+                        steps.append(("orc", rng.randrange(full + 1)))
+                init = 0 if family == "fix" else rng.randrange(full + 1)
+                fns.append({"kind": kind, "init": init, "nodes": chain_body(rng, steps)})
+            elif j in leaves:
+                steps = [("orc", rng.randrange(full + 1))]
+                if rng.random() < 0.6:
+                    steps = [("orc", rng.randrange(full + 1)), ("cond", rng.randrange(nin) + 1, rng.randrange(2) + 1, j, 0)]
+                    # conditional self-free variant: replace the cond call by an input-dependent constant
+                    i, f = rng.randrange(nin) + 1, rng.randrange(2) + 1
+                    c0, c1 = rng.randrange(full + 1), rng.randrange(full + 1)
+                    nodes = [node("in", i, f, 0, [2, 3]), node("orc", c0, 0, 0, [4]), node("orc", c1, 0, 0, [4]), node("retr")]
+                    fns.append({"kind": "plain", "init": 0, "nodes": nodes})
+                    continue
+                fns.append({"kind": "plain", "init": 0, "nodes": chain_body(rng, steps)})
+            else:
+                # consumer: combines cycle members
+                steps = [("orcall", rng.choice(cyc), full)]
+                if rng.random() < 0.5:
+                    steps.append(("cond", rng.randrange(nin) + 1, rng.randrange(2) + 1, rng.choice(cyc), full))
+                fns.append({"kind": rng.choice(["plain", "plain", "noeq"]), "init": 0, "nodes": chain_body(rng, steps)})
+        return {"nv": full + 1, "inputs": inputs, "cells": [], "fns": fns, "sfns": [], "ifns": [], "lru_cap": 2}
+    if family == "pcycle":
+        nfn = rng.choice([2, 3, 4])
+        fns = []
+        for j in range(1, nfn + 1):
+            steps = [("orc", rng.randrange(4))]
+            for _ in range(rng.choice([1, 2])):
+                g = rng.randrange(nfn) + 1
+                if g <= j:
+                    # backward (possibly cyclic) edges are conditional on an input
+                    steps.append(("cond", rng.randrange(nin) + 1, rng.randrange(2) + 1, g, full))
+                else:
+                    steps.append(rng.choice([("orcall", g, full), ("cond", rng.randrange(nin) + 1, rng.randrange(2) + 1, g, full)]))
+            fns.append({"kind": "plain", "init": 0, "nodes": chain_body(rng, steps)})
+        return {"nv": full + 1, "inputs": inputs, "cells": [], "fns": fns, "sfns": [], "ifns": [], "lru_cap": 2}
+    if family == "diverge":
+        # f1 consumer of f2; f2 = if in(1,1)=1 then NOT f2 (never stabilises) else const; f3 unrelated; f4 convergent cycle
+        i2 = rng.randrange(nin) + 1
+        f2 = [node("in", 1, 1, 0, [2, 3]), node("ret", rng.randrange(2)), node("call", 2, 0, 0, [4, 5]), node("ret", 1), node("ret", 0)]
+        f1 = chain_body(rng, [("orc", 4), ("orcall", 2, full)])
+        f3 = [node("in", i2, 2, 0, [2, 3]), node("ret", 0), node("ret", 1)]
+        f4 = chain_body(rng, [("orc", 1), ("orcall", 4, full), ("cond", 1, 2, 2, full)])
+        fns = [{"kind": "plain", "init": 0, "nodes": f1}, {"kind": "fix", "init": 0, "nodes": f2},
+               {"kind": "plain", "init": 0, "nodes": f3}, {"kind": "fix", "init": 0, "nodes": f4}]
+        return {"nv": full + 1, "inputs": inputs, "cells": [], "fns": fns, "sfns": [], "ifns": [], "lru_cap": 2}
+    raise ValueError(family)
+
+
+CYCLE_FAMILIES = ("fix", "fb", "pcycle", "diverge")
 
 
 def gen_history(rng, prog, nops, family="core"):
@@ -234,7 +354,7 @@ def gen_history(rng, prog, nops, family="core"):
             hist.append({"op": "get", "f": rng.randrange(nfn) + 1})
         elif o == "set":
             hist.append({"op": "set", "i": rng.randrange(nin) + 1, "f": rng.randrange(2) + 1,
-                         "v": rng.randrange(nv), "d": rng.choice(dchoices)})
+                         "v": rng.randrange(2 if family in CYCLE_FAMILIES else nv), "d": rng.choice(dchoices)})
         elif o == "synth":
             hist.append({"op": "synth", "d": rng.choice([0, 1, 2, 3] if family == "dur" else [0, 1, 2])})
         elif o == "cell":
@@ -255,7 +375,7 @@ def gen_jobs(seed, njobs, family, nops):
     rng = random.Random(seed)
     jobs = []
     for n in range(njobs):
-        prog = gen_program(rng, family)
+        prog = gen_cycle_program(rng, family) if family in CYCLE_FAMILIES else gen_program(rng, family)
         hist = gen_history(rng, prog, nops, family)
         jobs.append({"id": n + 1, "prog": prog, "hist": hist, "inject": 0, "seed": seed, "mode": family})
     return jobs
